@@ -136,6 +136,9 @@ class ScopeNameFinder:
             # a class header (its name, its base expressions) is evaluated
             # in the enclosing scope, not among the members of the class
             holding_scope = holding_scope.parent
+        elif holding_scope.parent is not None and lineno < holding_scope.get_start():
+            # a decorator is evaluated in the scope that holds the definition
+            holding_scope = holding_scope.parent
         return eval_str2(holding_scope, name)
 
     def get_enclosing_function(self, offset):
